@@ -151,23 +151,88 @@ def _init_worker(modname):
 
 def _call_named(arg):
     """used by explorers that drive the pool themselves (E2/E4): arg = (function name, argument)"""
+    import signal
     fname, a = arg
+    t0 = time.time()
+    try:
+        signal.signal(signal.SIGALRM, _alarm); signal.alarm(_limit())
+    except Exception:
+        pass
     try:
         return getattr(_PROP, fname)(a)
+    except _TaskTimeout:
+        return _timed_out(arg, t0)
     except BaseException as e:
         return {"harness_error": f"{type(e).__name__}: {e}\n{traceback.format_exc()}", "task": repr(arg)[:300]}
+    finally:
+        try:
+            signal.alarm(0)
+        except Exception:
+            pass
+
+
+class _Incomplete(Exception):
+    """raised inside an explorer that drives the pool itself when one of its tasks was dropped for exceeding its budget"""
+
+
+class _TaskTimeout(BaseException):
+    pass
+
+
+def _alarm(signum, frame):
+    raise _TaskTimeout()
+
+
+def _limit():
+    return int(os.environ.get("VERIF_TASK_LIMIT", "0") or 0) or (900 if os.environ.get("VERIF_TIER_RUNNING") != "thorough" else 7200)
+
+
+def _timed_out(task, t0):
+    """a task that exceeds its wall-clock budget (code under test that has become pathologically slow, or hangs) is dropped:
+    the run goes on, reports what the other tasks found and says that it is incomplete - never a silent pass"""
+    return {"scope": "timed-out", "states": 0, "transitions": 0, "validated": 0, "nontrivial": 0, "outcomes": set(), "new": [],
+            "new_count": 0, "new_groups": {}, "known_hits": {}, "samples": [], "algos": {}, "notes": {},
+            "task_s": time.time() - t0, "timed_out": repr(task)[:200]}
 
 
 def _work(task):
+    import signal
     t0 = time.time()
+    try:
+        signal.signal(signal.SIGALRM, _alarm); signal.alarm(_limit())
+    except Exception:
+        pass
+    try:
+        r = _work_inner(task, t0)
+        return r
+    except _TaskTimeout:
+        return _timed_out(task, t0)
+    finally:
+        try:
+            signal.alarm(0)
+        except Exception:
+            pass
+
+
+def _work_inner(task, t0):
     try:
         r = _PROP.run_task(task)
         if isinstance(r, Acc):
             r = r.result()
         r["task_s"] = time.time() - t0
         return r
+    except _TaskTimeout:
+        raise
     except BaseException as e:   # a crashing harness is a broken check: fail loudly, never silently pass
         return {"harness_error": f"{type(e).__name__}: {e}\n{traceback.format_exc()}", "task": repr(task)[:300]}
+
+
+def _until_incomplete(it):
+    try:
+        for r in it:
+            yield r
+    except _Incomplete:
+        return
 
 
 def run_property(prop_id, tier, seed, workers=None):
@@ -185,6 +250,8 @@ def run_property(prop_id, tier, seed, workers=None):
     outcomes = set(); new = []; known_hits = Counter(); samples = []; algos = Counter(); notes = Counter()
     scopes = {}; new_groups = Counter()
     errors = []
+    timed_out = []
+    os.environ["VERIF_TIER_RUNNING"] = tier
     serial = getattr(mod, "SERIAL", False) or workers == 1
     if serial:
         _init_worker(modname)
@@ -195,16 +262,24 @@ def run_property(prop_id, tier, seed, workers=None):
         pool = ctx.Pool(workers, initializer=_init_worker, initargs=(modname,))
         it = pool.imap_unordered(_work, tasks, chunksize=1)
     if custom:
-        if pool is None:
-            pmap = lambda fname, args: [_call_named((fname, a)) for a in args]
-        else:
-            pmap = lambda fname, args: pool.map(_call_named, [(fname, a) for a in args], chunksize=1)
+        def pmap(fname, args):
+            if pool is None:
+                rs = [_call_named((fname, a)) for a in args]
+            else:
+                rs = pool.map(_call_named, [(fname, a) for a in args], chunksize=1)
+            late = [r["timed_out"] for r in rs if isinstance(r, dict) and r.get("timed_out")]
+            if late:
+                timed_out.extend(late)
+                raise _Incomplete()
+            return rs
         it = mod.explore(tier, seed, pmap)
     try:
-        for r in it:
+        for r in _until_incomplete(it):
             if "harness_error" in r:
                 errors.append(r); continue
             r.setdefault("task_s", 0.0)
+            if r.get("timed_out"):
+                timed_out.append(r["timed_out"])
             for key in ("states", "transitions", "validated", "nontrivial", "new_count"):
                 merged[key] += r[key]
             if len(outcomes) < 200000:
@@ -272,7 +347,8 @@ def run_property(prop_id, tier, seed, workers=None):
         "evaluations": merged["transitions"], "distinct_nontrivial": merged["nontrivial"],
         "rule": getattr(mod, "RULE", ""),
         "samples": samples[:6] or ["<none>"],
-        "exhaustive": True,
+        "exhaustive": not timed_out,
+        "tasks_timed_out": timed_out[:20],
         "bounds": getattr(mod, "bounds", lambda t: {})(tier),
         "scopes": scopes, "tasks": n, "workers": workers,
         "explorer": getattr(mod, "EXPLORER_STATS", None),
@@ -296,7 +372,10 @@ def run_property(prop_id, tier, seed, workers=None):
     print(f"{prop_id} tier={tier} seed={seed} states={cov['states']} transitions={cov['transitions']} "
           f"validated={cov['traces_validated_against_impl']} nontrivial={cov['distinct_nontrivial']} "
           f"outcomes={cov['observed_outcomes']} known_hit={sum(known_hits.values())} new={merged['new_count']} wall={wall:.1f}s")
-    return 1 if merged["new_count"] else 0
+    if timed_out:
+        print(f"INCOMPLETE property={prop_id}: {len(timed_out)} task(s) exceeded the per-task wall-clock budget of {_limit()} s and were dropped "
+              f"(first: {timed_out[0][:120]}); the bounds stated in the evidence were NOT fully covered")
+    return 1 if merged["new_count"] else (2 if timed_out else 0)
 
 
 def _repro(mod, v):
